@@ -44,6 +44,11 @@ def gen(seed, tier):
         for _ in range(2):
             bigs.append(len(programs))
             programs.append(progs.gen_compile_program(rng, big=True))
+        if rng.random() < 0.6:
+            # ... one of them also has a predicate with many clauses (12-40 facts and rules in one block)
+            n_tall = rng.randrange(12, 41)
+            tall = ['tall(a%d, X) :- tall(X, b%d).' % (i, i) if rng.random() < 0.3 else 'tall(a%d, %s).' % (i, rng.choice(['b', 'X', '[]', '"s"', '1'])) for i in range(n_tall)]
+            programs[bigs[0]] = programs[bigs[0]].rstrip('\n') + '\n' + '\n'.join(tall) + '\n'
     # look-alike twins and failing variants of corpus programs: what one compilation leaves behind in the
     # process (memo tables, half-updated scopes) must not show in the next
     for text in list(programs):
